@@ -241,7 +241,6 @@ static void judge_separation(const dcfg *c, matrix *X, const int *cls, const ref
   int errs = 0, first = -1;
   for (int i = 0; i < c->n; i++) if (o->pred->data[i][0] != (double)(c->base + cls[i])) { errs++; if (first < 0) first = i; }
   stat_line(mW >= 20 ? (mT < 1e-6 ? "sep-judged-Trule-errs" : "sep-judged-Trule-ok") : "sep-not-judged", (double)mW, errs);
-  if (mW >= 20 && mT < 1e-6 && errs == 0 && getenv("C08_STATS")) { char b[200]; snprintf(b, sizeof b, "ODD-K%d-p%d-sz%d-l%d-s%d-mT%.3Lg-eT%d", c->K, c->p, c->sz, c->layout, c->sep, mT, eT); stat_line(b, 0, 0); }
   if (!(mW >= 20)) return;                      /* not "well separated": nothing is demanded */
   char key[160], cl[80] = "";
   if (c->base) strcat(cl, "labels=1-based");
